@@ -401,8 +401,11 @@ func (z *ZodIntegerTyped[T, R]) Overwrite(
 func (z *ZodIntegerTyped[T, R]) Pipe(
 	target core.ZodType[any],
 ) *core.ZodPipe[R, any] {
+	// The target receives the value this schema produced, in its own type T: an int64
+	// conversion would make Int().Pipe(Int()) fail on every input and would hand 0 on for
+	// a uint64 above math.MaxInt64.
 	fn := func(input R, ctx *core.ParseContext) (any, error) {
-		return target.Parse(extractIntegerToInt64[T, R](input), ctx)
+		return target.Parse(extractIntegerValue[T, R](input), ctx)
 	}
 	return core.NewZodPipe[R, any](z, target, fn)
 }
